@@ -21,8 +21,10 @@ A11 = ("A11 shape-level contracts of curves.py (engine V, C15): a knot vector is
        "in C04 / C06), KnotVector + / - nodes returns a new vector of the stated length with an inferred degree, fit_curve fills a FRESH curve with npts points and, for a weighted "
        "source, npts weights (assumed; its values are the subject of C11), heavy.find_roots raises ValueError for a weight list of the wrong length (engine B checks this clause on the real function); "
        "the final weights setter of update / apply is assumed not to find a zero in the refitted / transformed weight function (no witness against it was found "
-       "by a native search over 3000 random rational curves); the call-site summaries of update / apply / the setters / knot_remove / degree_* / *_clean restate "
-       "the postconditions PROVED for those functions (the correspondence is by construction and hand review, not machine-checked)")
+       "by a native search over 3000 random rational curves); the call-site contracts of update / apply / the three setters / knot_remove / degree_* / *_clean / "
+       "fit_points / copy / -curve / curve + scalar / norm are NOT assumptions any more: every check that uses one discharges (pyvc/conform.py, obligations "
+       "`…:callsite-contract[…]:pre|exc-covered|exc-when|exc-state|post|kind|nonvacuous`) that the handler raises the callee's preconditions, lets every exception of the callee's proved contract "
+       "happen, and assumes about the post-state only what that contract's ensures imply, and it verifies the callee contracts themselves (transitive closure of the calls tables)")
 A12 = ("A12 engine V treats distinct object parameters as distinct objects (no aliasing between `self` and `other`), and does not decide the identity "
        "of two symbolic VALUE objects (immutable payloads): an `is` test between them puts the function outside V (bounded checks decide)")
 A13 = ("A13 call-site contracts used inside the engine-V proofs of Curve.eval and FunctionEvaluator.eval: the private `__eval` returns one value per node "
